@@ -104,6 +104,7 @@ hwloc_topology_t tl_load_xmlbuffer(const char *buf, size_t len, const struct tg_
 hwloc_topology_t tl_load_xmlfile(const char *path, const struct tg_config *c, int *stage);
 /* list of corpus XML files (tests/hwloc/xml/*.xml + /verif/corpus/*.xml); returns count */
 unsigned tl_corpus(const char ***pathsp);
+unsigned tl_witness(const char *sub, const char *suffix, const char ***pathsp);   /* /verif/corpus/<sub>/\*<suffix>, sorted */
 char *tl_read_file(const char *path, size_t *lenp);
 
 uint64_t tv_shape_hash(hwloc_topology_t t);
